@@ -23,13 +23,16 @@ CLAIMS = {
              "pair, ASCII-representation haystack x code-point needle, answers None for every input in model and code: KNOWN-FINDING K1. Tie to the code: the model is replayed "
              "against the implementation on every generated case and the Sublist oracle is evaluated on the implementation's own results."),
     "C02": dict(
-        technique="Lean 4 theorems (index-pushing loop of calculate_score; cell invariants of the optimal matcher's recurrence) + witness oracle on the implementation's indices",
-        text="Partial proof. Theorems: meaning of the witness predicate; every calculate_score-based path reports strictly increasing indices inside [start,end) of the haystack; "
+        technique="Lean 4 theorems (index-pushing loop of calculate_score on tight windows; greedy scans; cell invariants of the optimal matcher's recurrence) + witness oracle on the implementation's indices",
+        text="Theorems: meaning of the witness predicate; every calculate_score-based path reports strictly increasing indices inside [start,end) of the haystack; "
              "the alignment reported by the optimal matcher's recurrence is a valid witness (one index per needle character, strictly increasing, inside the haystack and the "
              "window, each haystack character normalizing to its needle character: C02_optimalDP_valid_witness, prefix preference off; C02_optimalDP_spells_needle for every "
              "configuration); exact_match_impl, prefix and postfix matching report exactly the contiguous indices of their window, anchored right after the skipped leading / right "
              "in front of the skipped trailing whitespace (companion file C02_Anchored: calculateScore_contiguous, C02_exactImpl_contiguous, C02_prefix_anchored, "
-             "C02_postfix_anchored); failed matches carry no indices. Character agreement for the greedy calculate_score paths and the equality of the real back-pointer "
+             "C02_postfix_anchored); the greedy matcher's indices are a valid witness (companion file C02_Greedy, C02_greedy_entry: code-point haystacks with any needle, ASCII "
+             "haystacks with a normalized needle; calculate_score yields a witness exactly on a tight window - the rest of the needle is a subsequence of the window but not of the "
+             "window without its last character - the forward scans of the prefilter / of fuzzy_match_greedy_ stop at the first completion and the backward scan keeps the window "
+             "tight wherever it moves the start); failed matches carry no indices. The substring scan's window and the equality of the real back-pointer "
              "matrix with the recurrence are checked on the implementation's output for every case (prior vector content random, must be untouched)."),
     "C03": dict(
         technique="Lean 4 theorems (constants = documented literals, bonus table, calculate_score loop and the optimal recurrence = scheme on the reported alignment) + scheme oracle on the implementation's alignment",
